@@ -1,12 +1,152 @@
-(* C02 — see manifest.d/C02.json: what is proved for the scheduler model so far is
-   the lifecycle invariant (Props/C01.v); this file restates the part of it that
-   C02 relies on, so that the check of C02 fails when the model or that proof breaks.
-   The property itself is decided by the correspondence and the direct oracle of
-   harness/drivers/c02.py on every run. *)
-From Hio Require Import Base.Prelude Base.AMap Base.Time Model.Sched Proofs.SchedLife Proofs.SchedTop.
+(* C02 — forced exits are nested: reverse enter order, children before parent,
+   every alive doer exited before do() returns or raises.
+   Model: Model/Sched.v.  Proofs: Proofs/SchedDeque*.v (the holding invariant
+   "a doer is suspended iff exactly one deed holds it, and every holder chain
+   ends at the root, a local list or the call stack"), on top of SchedFrame/Life/Top.
 
-Theorem C02_lifecycles_core :
-  forall (T : Type) (TT : Time T) (cycles fuel : nat) (p : prog T) (j : id),
-    life_ok (get_gen (do_run cycles fuel p) j) (events j (do_run cycles fuel p)).
-Proof. intros. apply do_run_lifecycles. Qed.
-Print Assumptions C02_lifecycles_core.
+   Static class of programs ([W], executable form [Wb]): id 0 is only the root,
+   extend() targets are the root or DoDoers, no doer calls remove() in its first
+   resumption (finding D43: such a remove can close the DoDoer being extended).
+
+   FULL statement of the property: for every program and every way the run stops,
+   (a) every doer alive at the stop has its Exit before DoReturn/DoRaise,
+   (b) the forced Cease events of one exit() sweep are in reverse enter order,
+   (c) the children of a DoDoer are closed between its Cease and its Exit.
+   Proved: (a) for the class W ([C02_before_return_partial]; false outside it,
+   [C02_before_return_refuted] = D43); (c) in full; for (b) the part "exit()
+   closes in the reverse of the un-rotated deque, remove() likewise" in full
+   ([C02_close_in_list_order], [C02_exit_reverse_deque], [C02_final_exit_partial]);
+   the remaining link "un-rotated deque order = enter order" is false when
+   extend() runs while not-yet-run deeds remain in a pass (open finding D3,
+   [C02_reverse_enter_order_refuted]) and is NOT PROVED for the complementary
+   class — it is checked by the correspondence and the trace oracle on every run. *)
+From Hio Require Import Base.Prelude Base.AMap Base.Time Model.Sched Proofs.SchedLife Proofs.SchedTop
+  Proofs.SchedDeque Proofs.SchedDequeHold Proofs.SchedDequeAll Proofs.SchedDequeUniq Proofs.SchedDequeOrder
+  Proofs.SchedDequeEffects Proofs.SchedDequeTop Proofs.SchedDequeTop2.
+
+(* (a) every doer's events are complete lifecycles and the newest event is the
+   DoReturn/DoRaise: every Enter has its Exit before do() returns or raises *)
+Theorem C02_before_return_partial :
+  forall (T : Type) (TT : Time T) (cycles fuel : nat) (p : prog T),
+    W (p_defs p) -> oof (do_run cycles fuel p) = false ->
+    (forall j, lives (events j (do_run cycles fuel p))) /\
+    (forall j, get_gen (do_run cycles fuel p) j = GNew \/ get_gen (do_run cycles fuel p) j = GDone) /\
+    exists k t rest, trace (do_run cycles fuel p) = {| e_kind := k; e_id := 0%N; e_tyme := t |} :: rest /\
+                     (k = DoReturn \/ k = DoRaise).
+Proof.
+  intros T TT cycles fuel p Hw O. destruct (do_run_all_exited cycles fuel p Hw O) as [L E].
+  split; [exact L|]. split; [exact (do_run_complete cycles fuel p Hw O)|exact E].
+Qed.
+Print Assumptions C02_before_return_partial.
+
+Example C02_before_return_example :
+  Wb (p_defs w_prog) = true /\ oof (do_run 10 100 w_prog) = false.
+Proof. vm_compute. split; reflexivity. Qed.
+
+(* outside the class (a) is false: a doer entered by extend() is never exited (D43) *)
+Theorem C02_before_return_refuted :
+  exists (p : prog Z) cycles fuel j pc,
+    oof (do_run cycles fuel p) = false /\ get_gen (do_run cycles fuel p) j = GSusp pc /\
+    events j (do_run cycles fuel p) = [Enter].
+Proof. exact do_run_complete_refuted. Qed.
+Print Assumptions C02_before_return_refuted.
+
+(* the second invariant at the cycle boundaries of the root: a doer is suspended
+   iff it is held, by one deed of one deque *)
+Theorem C02_held_exactly_once :
+  forall (T : Type) (TT : Time T) (s : st T), Hold s [] -> Hold2 s [] ->
+    (forall i, is_susp s i <-> exists sid, In i (qids s sid)) /\
+    (forall i sid sid', In i (qids s sid) -> In i (qids s sid') -> sid = sid') /\
+    (forall sid, NoDup (qids s sid)).
+Proof. intros. now apply held_iff. Qed.
+Print Assumptions C02_held_exactly_once.
+
+Theorem C02_invariant_between_passes :
+  forall (T : Type) (TT : Time T) (fuel : nat) (p : prog T) s1 r,
+    W (p_defs p) -> enter_own (p_tock p) fuel (init_st p) 0%N (p_doers p) = (s1, r) -> oof s1 = false ->
+    (Hold s1 [] /\ Hold2 s1 []) /\
+    forall tk f s s' r', Hold s [] -> Hold2 s [] -> recur_pass tk f s 0%N = (s', r') -> oof s' = false ->
+                         Hold s' [] /\ Hold2 s' [].
+Proof.
+  intros T TT fuel p s1 r Hw E O. split; [exact (after_enter fuel p s1 r Hw E O)|].
+  intros. eapply after_pass; eassumption.
+Qed.
+Print Assumptions C02_invariant_between_passes.
+
+Example C02_invariant_example :
+  let '(s1, r) := enter_own 1%Z 100 (init_st w_prog) 0%N (p_doers w_prog) in
+  oof s1 = false /\ qids s1 0%N = [1; 2; 5]%N /\ qids s1 2%N = [3; 4]%N.
+Proof. vm_compute. repeat split. Qed.
+
+(* (b1) close_list closes the listed doers in list order: the Cease events of
+   the listed doers appear in exactly that order (whatever is closed in between
+   belongs to their sub-trees) *)
+Theorem C02_close_in_list_order :
+  forall (T : Type) (TT : Time T) (tk : T) (f : nat) (s : st T) (ds : list (deed T)) (X : list id),
+    Hold s (dids ds ++ X) -> Hold2 s (dids ds ++ X) -> oof (close_list tk f s ds) = false ->
+    exists seg, trace (close_list tk f s ds) = seg ++ trace s /\ tops (dids ds) seg = dids ds.
+Proof. intros. eapply close_list_order; eassumption. Qed.
+Print Assumptions C02_close_in_list_order.
+
+(* (b2) exit() of any scheduler closes its alive doers in the reverse of the
+   un-rotated deque (the rotation of an interrupted pass is undone first) *)
+Theorem C02_exit_reverse_deque :
+  forall (T : Type) (TT : Time T) (tk : T) (f : nat) (s : st T) (sid : id) (X : list id),
+    Hold s X -> Hold2 s X -> oof (close_own tk f s sid) = false ->
+    exists seg, trace (close_own tk f s sid) = seg ++ trace s /\
+                tops (dids (rev (unrotate (dq s sid)))) seg = dids (rev (unrotate (dq s sid))).
+Proof. intros. eapply close_own_order; eassumption. Qed.
+Print Assumptions C02_exit_reverse_deque.
+
+Theorem C02_unrotate :
+  forall (T : Type) (u r : list (deed T)), ~ In DMark u -> unrotate (u ++ DMark :: r) = r ++ u.
+Proof.
+  intros T u r Hn. unfold unrotate. pose proof (split_mark_app u r [] [] Hn) as E.
+  rewrite !app_nil_r in E. cbn [rev app] in E. now rewrite E.
+Qed.
+Print Assumptions C02_unrotate.
+
+(* (c) a DoDoer that is force-closed: its own Cease, then its alive children in
+   the reverse of its un-rotated deque (each with its own sub-tree), then its Exit *)
+Theorem C02_children_before_parent :
+  forall (T : Type) (TT : Time T) (tk : T) (f : nat) (s : st T) (i : id) pc t0 al kids (X : list id),
+    Hold s (i :: X) -> Hold2 s (i :: X) ->
+    get_gen s i = GSusp pc -> get (defs s) i = Some (FNest t0 al kids) ->
+    oof (gen_close tk (S f) s i) = false ->
+    exists seg, trace (gen_close tk (S f) s i) = ev_at s Exit i :: seg ++ ev_at s Cease i :: trace s /\
+                tops (dids (rev (unrotate (dq s i)))) seg = dids (rev (unrotate (dq s i))).
+Proof. intros. eapply gen_close_nest; eassumption. Qed.
+Print Assumptions C02_children_before_parent.
+
+(* whole runs: the last act of do() is the root's exit(), closing the root's
+   alive doers in the reverse of the un-rotated root deque *)
+Theorem C02_final_exit_partial :
+  forall (T : Type) (TT : Time T) (cycles fuel : nat) (p : prog T),
+    W (p_defs p) -> oof (do_run cycles fuel p) = false ->
+    exists s0 k seg,
+      trace (do_run cycles fuel p) = {| e_kind := k; e_id := 0%N; e_tyme := tyme s0 |} :: seg ++ trace s0 /\
+      (k = DoReturn \/ k = DoRaise) /\ Hold s0 [] /\ Hold2 s0 [] /\
+      tops (dids (rev (unrotate (dq s0 0%N)))) seg = dids (rev (unrotate (dq s0 0%N))).
+Proof. intros. now apply do_run_final_close. Qed.
+Print Assumptions C02_final_exit_partial.
+
+(* (b) in full is false of the code: extend() during a pass (finding D3).
+   Doers 1, 2 entered in that order, 1 extends the Doist with 3 in the first
+   pass; the limit stops the run: forced exits 2, 1, 3 instead of 3, 2, 1. *)
+Definition ids_of (k : ekind) (s : st Z) : list id :=
+  map e_id (filter (fun e => match e_kind e, k with Enter, Enter | Cease, Cease => true | _, _ => false end)
+                   (rev (trace s))).
+Definition d3_prog : prog Z :=
+  let Y := {| f_es := []; f_out := OYield None |} in
+  let Y0 := {| f_es := []; f_out := OYield (Some 0%Z) |} in
+  {| p_tock := 1%Z; p_limit := Some 3%Z; p_tyme := 0%Z; p_doers := [1; 2]%N;
+     p_defs := [(1, FLeaf KFunc [Y; {| f_es := [EExtend 0 [3]]; f_out := OYield None |}; Y; Y; Y; Y]);
+                (2, FLeaf KDoer [Y; Y0; Y0; Y0; Y0; Y0]);
+                (3, FLeaf KFunc [Y; Y; Y; Y; Y; Y])]%N |}.
+Theorem C02_reverse_enter_order_refuted :
+  exists (p : prog Z) cycles fuel,
+    Wb (p_defs p) = true /\ oof (do_run cycles fuel p) = false /\
+    ids_of Enter (do_run cycles fuel p) = [1; 2; 3]%N /\
+    ids_of Cease (do_run cycles fuel p) = [2; 1; 3]%N.
+Proof. exists d3_prog, 10%nat, 100%nat. vm_compute. repeat split. Qed.
+Print Assumptions C02_reverse_enter_order_refuted.
